@@ -81,6 +81,7 @@ def check(ctx, res) -> None:
     module_search_order_rule(ctx, res, "R02.8")
     _header_keyword_rule(ctx, res)
     _package_precedence_rule(ctx, res)
+    _shared_global_rule(ctx, res)
     from .c14 import line_table_rule
 
     line_table_rule(ctx, res, "R02.11")
@@ -436,3 +437,35 @@ def _package_precedence_rule(ctx, res, rule: str = "R02.10") -> None:
             "single-name lookup consults the __init__ names first" if ok1 else
             f"PyPackage.get_attribute consults {seq1 or 'the inherited order: structural first'}: pkg.name resolves to the submodule although __init__.py rebinds it",
             function=(g1 or base).qualname)
+
+
+def _shared_global_rule(ctx, res, rule: str = "R02.13") -> None:
+    """R02.13: `global n` in two functions names one variable even when the module never assigns n.  In the scope
+    visitor's Global handler the binding made up for such a name is obtained from a registry owned by the module
+    (`module.<dict>.setdefault(name, ...)` or a lookup in it), never constructed afresh per declaration."""
+    idx = ctx.idx
+    h = idx.need_func("rope.base.pyobjectsdef._ScopeVisitor._Global")
+    made = [c for c in calls_in(h.node) if call_name(c) in ("AssignedName", "UnboundName", "DefinedName")]
+    if not made:
+        res.ok(rule, "_ScopeVisitor._Global|shared-binding", h.where, "the handler constructs no binding of its own")
+        return
+    par = {}
+    for n in ast.walk(h.node):
+        for ch in ast.iter_child_nodes(n):
+            par[id(ch)] = n
+    ok = True
+    for c in made:
+        p = par.get(id(c))
+        via_registry = isinstance(p, ast.Call) and isinstance(p.func, ast.Attribute) and p.func.attr in ("setdefault", "get") and c in p.args
+        if not via_registry:
+            # or stored into a module-owned mapping right away
+            st = p
+            while st is not None and not isinstance(st, ast.stmt):
+                st = par.get(id(st))
+            via_registry = isinstance(st, ast.Assign) and any(isinstance(t, ast.Subscript) for t in st.targets)
+        ok = ok and via_registry
+    res.add(rule, "_ScopeVisitor._Global|shared-binding", ok, h.where,
+            "the binding for a name bound only through `global` comes from a module-owned registry" if ok else
+            "_ScopeVisitor._Global constructs a fresh binding for every `global n` whose n the module does not assign: two functions declaring the "
+            "same global get two unrelated bindings, so find-occurrences from one misses the other and rename changes only one of them",
+            function=h.qualname)
